@@ -54,7 +54,8 @@ def episode(draw, index):
         for i in range(draw(st.integers(1, 3))):
             payloads.append({"id": base + 200 + i, "flavour": "threading", "role": "blocked", "reg": {"how": "pre"}, "program": [["block", 60000]],
                              "end": ["return", "None"]})
-    end = draw(st.sampled_from(["shutdown-outside", "shutdown-outside", "shutdown-thread", "sigint", "failure", "failure+shutdown"]))
+    end = draw(st.sampled_from(["shutdown-outside", "shutdown-outside", "shutdown-thread", "sigint", "failure", "failure+shutdown", "failure+shutdown",
+                                "sigint+shutdown"]))
     at = draw(st.sampled_from([0, 0, 1, int(ad * 500), int(ad * 1000), int(ad * 1000) + 1, 30, 80]))
     if population == "adopters":
         script = []
@@ -87,8 +88,11 @@ def episode(draw, index):
     trigger = {"mode": end, "at_ms": at + shift}
     if end == "shutdown-outside":
         early.append({"at_ms": at + shift, "op": "shutdown"})
-    elif end == "sigint":
+    elif end in ("sigint", "sigint+shutdown"):
         early.append({"at_ms": at + shift, "op": "sigint"})
+        if end == "sigint+shutdown":
+            # an explicit shutdown() shortly after (or long after) the interrupt has already ended the runner
+            early.append({"at_ms": at + shift + draw(st.sampled_from([0, 1, 5, 30, 80])), "op": "shutdown"})
     elif end == "shutdown-thread":
         payloads.append({"id": base + 500, "flavour": "threading", "role": "shutter", "reg": {"how": "outside"}, "program": [["shutdown"]], "end": ["return", "None"]})
         early.append({"at_ms": at + shift, "op": "adopt", "pid": base + 500})
@@ -97,10 +101,10 @@ def episode(draw, index):
         payloads.append({"id": base + 1, "flavour": draw(st.sampled_from(ALL)), "role": "failing", "kind": k, "reg": {"how": "pre"},
                          "program": [["sleep", at + shift]], "end": ["raise", draw(st.sampled_from(SIMPLE_EXC))] if k == "exc" else ["return", draw(st.sampled_from(RETURN_NAMES))]})
         if end == "failure+shutdown":
-            early.append({"at_ms": max(0, at + shift + draw(st.sampled_from([-2, 0, 1, 3]))), "op": "shutdown"})
+            early.append({"at_ms": max(0, at + shift + draw(st.sampled_from([-2, 0, 1, 3, 20, 60]))), "op": "shutdown"})
     drivers[0] = sorted(early, key=lambda s: s["at_ms"])
     return {"runner": "service", "accept_delay": ad, "payloads": payloads, "drivers": drivers, "linger_ms": 20, "trigger": trigger,
-            "population": population, "naccept": naccept, "heartbeats": hb}
+            "population": population, "naccept": naccept, "heartbeats": hb, "immediate": end.startswith("shutdown") and at == 0}
 
 
 @st.composite
@@ -121,6 +125,10 @@ def history(draw):
     h = {"episodes": eps, "switchinterval": draw(switchinterval), "bound_s": BOUND}
     if any(e.get("simultaneous") for e in eps):
         h["trace_delay"] = {"files": ["runners/guard.py"], "delays_ms": [draw(st.sampled_from([0, 1, 3])), draw(st.sampled_from([0, 1, 3])), draw(st.sampled_from([0, 2, 5]))]}
+    elif any(e.get("immediate") for e in eps) and draw(st.booleans()):
+        # shutdown() the moment the runner reports running: line-level delays inside the service module widen every window
+        # between two of its statements
+        h["trace_delay"] = {"files": ["runners/service.py"], "delays_ms": [0, draw(st.sampled_from([1, 2])), draw(st.sampled_from([0, 1, 3]))]}
     return h
 
 
@@ -189,12 +197,17 @@ def judge(sc, obs) -> Result:
             if o.get("op") == "execute" and o["t_return"] < min(t_trigger, out["t_end"]) and o.get("result") != "same" and mode not in ("failure", "failure+shutdown"):
                 res.fail("active-runner-disturbed", f"{tag}: execute after a rejected accept gave {o.get('result')} / {o.get('raised')}")
         # ---- shutdown and how accept ended
+        calls = [e for e in obs["log"] if e[3] == "shutdown-call" and len(e) > 5 and e[5] == k]
+        returned = [o for o in ops if o.get("op") == "shutdown"]
+        if len(returned) < len(calls):
+            res.expensive = True
+            res.fail("shutdown-did-not-return", f"{tag}: shutdown() was called {len(calls)} time(s) but returned {len(returned)} time(s) within the bound")
         for o in ops:
             if o.get("op") == "shutdown" and o.get("result") != "returned":
                 res.fail("shutdown-raised", f"{tag}: shutdown() by {o['by']} raised {o.get('raised')}: {o.get('raised_repr')}")
-        if mode in ("shutdown-outside", "shutdown-thread", "sigint"):
+        if mode in ("shutdown-outside", "shutdown-thread", "sigint", "sigint+shutdown"):
             if out["how"] != "returned":
-                res.fail("accept-raised-on-" + ("interrupt" if mode == "sigint" else "shutdown"), f"{tag}: accept() raised {exc.get('type')}: {exc.get('repr')} cause {exc.get('cause')}")
+                res.fail("accept-raised-on-" + ("interrupt" if mode.startswith("sigint") else "shutdown"), f"{tag}: accept() raised {exc.get('type')}: {exc.get('repr')} cause {exc.get('cause')}")
         elif mode == "failure":
             if out["how"] != "raised" or exc.get("type") != "RuntimeError":
                 res.fail("failure-not-reported", f"{tag}: accept() {out['how']} {exc.get('type')}")
